@@ -17,6 +17,7 @@ import (
 	"github.com/corazawaf/coraza/v3/internal/verif/probe"
 	"github.com/corazawaf/coraza/v3/internal/verif/runner"
 	"github.com/corazawaf/coraza/v3/internal/verif/scen"
+	"github.com/corazawaf/coraza/v3/internal/verif/vrt"
 	"github.com/corazawaf/coraza/v3/types"
 )
 
@@ -28,7 +29,7 @@ func init() {
 			"every phase carries a counter rule before and after the disruptive rules. Breadth-first search over all sequences of 14 Transaction API calls up to the depth bound; a state is a call history replayed on a fresh transaction, deduplicated by a canonical key of all public observations (counters, interruption, last phase, buffered lengths, matched rules, full variable dump); " +
 			"invariants of the property are evaluated on every transition.",
 		Assumptions: []string{
-			"state key = every public observation of the transaction; two histories with equal keys are assumed to have equal futures (the key is deliberately finer than the guards of transaction.go need)",
+			"state key = interruption, last phase, engine-off flag, buffered lengths, matched rules, body-access flags, the whole TX collection and every variable the 14 calls of the alphabet can write; two histories with equal keys are assumed to have equal futures (the key is deliberately finer than the guards of transaction.go need)",
 			"calls after Close and concurrent calls on one transaction are excluded by the property",
 			"disruptive rules are generated for phases 1-4 only (a disruptive action in the logging phase cannot block by documentation)",
 		},
@@ -122,9 +123,14 @@ type obs struct {
 
 func observe(tx types.Transaction) obs {
 	var o obs
-	vars := probe.Vars(tx, nil)
-	for _, e := range vars["TX/TX"] {
-		k, v, _ := strings.Cut(e, "=")
+	saved := vrt.MapOrderOff
+	vrt.MapOrderOff = true
+	defer func() { vrt.MapOrderOff = saved }()
+	tv := tx.(plugintypes.TransactionState).Variables()
+	var txd []string
+	for _, md := range tv.TX().FindAll() {
+		k, v := md.Key(), md.Value()
+		txd = append(txd, k+"="+v)
 		if len(k) == 2 && (k[0] == 'p' || k[0] == 'q') {
 			n, _ := strconv.Atoi(v)
 			i := int(k[1] - '0')
@@ -137,6 +143,7 @@ func observe(tx types.Transaction) obs {
 			}
 		}
 	}
+	sort.Strings(txd)
 	o.Itr = probe.Itr(tx.Interruption())
 	o.Last = int(tx.(plugintypes.TransactionState).LastPhase())
 	o.Off = tx.IsRuleEngineOff()
@@ -153,18 +160,11 @@ func observe(tx types.Transaction) obs {
 	for _, m := range tx.MatchedRules() {
 		o.Matched = append(o.Matched, m.Rule().ID())
 	}
-	names := make([]string, 0, len(vars))
-	for n := range vars {
-		names = append(names, n)
-	}
-	sort.Strings(names)
-	var sb strings.Builder
-	fmt.Fprintf(&sb, "itr=%s last=%d off=%v req=%d resp=%d matched=%v accessible=%v/%v processable=%v\n", o.Itr, o.Last, o.Off, o.ReqLen, o.RespLen, o.Matched,
-		tx.IsRequestBodyAccessible(), tx.IsResponseBodyAccessible(), tx.IsResponseBodyProcessable())
-	for _, n := range names {
-		fmt.Fprintf(&sb, "%s=%q\n", n, vars[n])
-	}
-	o.key = sb.String()
+	// canonical key: every variable the 14 calls of the alphabet can influence
+	o.key = fmt.Sprintf("itr=%s last=%d off=%v req=%d resp=%d matched=%v accessible=%v/%v processable=%v tx=%q addr=%q uri=%q rh=%d rsh=%d body=%q rbody=%q in=%q out=%q status=%q rbe=%q rct=%q",
+		o.Itr, o.Last, o.Off, o.ReqLen, o.RespLen, o.Matched, tx.IsRequestBodyAccessible(), tx.IsResponseBodyAccessible(), tx.IsResponseBodyProcessable(), txd,
+		tv.RemoteAddr().Get(), tv.RequestURI().Get(), len(tv.RequestHeaders().FindAll()), len(tv.ResponseHeaders().FindAll()), tv.RequestBody().Get(), tv.ResponseBody().Get(),
+		tv.InboundDataError().Get(), tv.OutboundDataError().Get(), tv.ResponseStatus().Get(), tv.RequestBodyError().Get(), tv.ResponseContentType().Get())
 	return o
 }
 
